@@ -7,6 +7,7 @@ import CifModel.Lemmas.StoreRefineS
 import CifModel.Lemmas.StoreRefineR
 import CifModel.Lemmas.StoreRefineC
 import CifModel.Lemmas.StoreTotalS
+import CifModel.Lemmas.StoreCodes
 /-
   Property C04 — the managed CIF behaves as the documented data model under any API history.
 
@@ -1104,5 +1105,33 @@ theorem C04_packets_total_init : WGood {} := WGood.empty
 theorem C04_packets_total_reads (w : World) (h : WGood w) (c : Nat) (s : Store) (hs : w.cifs.getD c none = some s) :
     ∀ x ∈ s.db.loops, ∀ r ∈ s.db.loopRows x.cid x.loopNum, ∀ j ∈ s.db.loopItems x.cid x.loopNum, s.db.hasValue x.cid j.name r = true :=
   (h c s hs).db.total
+
+
+-- ---- failure-code agreement with Spec/DataModel (loop level) ---------------------------------------------------------------------
+
+/-- cif_loop_set_category returns the documented model's code — CIF_RESERVED_LOOP exactly when the loop is the scalar loop or ""
+    is asked for, CIF_OK otherwise, nothing else — for a handle that names an existing loop and carries its stored category -/
+theorem C04_code_set_category (s : Store) (l : LH) (cat : Option Str) (x : LoopRow) (h : Inv s.db) (hx : x ∈ s.db.loops)
+    (hk : x.cid = l.cid ∧ x.loopNum = l.loopNum) (hcat : l.category = x.category) :
+    (Store.setCategory s l cat).2.2 = ((absLoop s.db x).specSetCategory cat).map (fun _ => ()) :=
+  setCategory_code s l cat x h hx hk hcat
+
+/-- cif_loop_add_packet returns the documented model's code: CIF_RESERVED_LOOP for the scalar loop that has its packet,
+    CIF_WRONG_LOOP for an entry that is not an item of the loop, CIF_OK otherwise (CIF_INVALID_PACKET for the empty packet is
+    decided before the body) — and no other code.  Hypotheses beyond `Inv`: the handle names an existing loop; `RowsBelow`; the
+    scalar loop's last_row_num counts its packet; the packet's keys are distinct (a packet is a map); names stored normalised. -/
+theorem C04_code_add_packet (norm : Str → Str) (d : Db) (l : LH) (pkt : List (Str × V)) (x : LoopRow) (h : Inv d) (hx : x ∈ d.loops)
+    (hk : x.cid = l.cid ∧ x.loopNum = l.loopNum) (hrb : RowsBelow d l.cid l.loopNum)
+    (hsc : x.category = some [] → (1 ≤ x.lastRowNum ↔ d.loopRows x.cid x.loopNum ≠ []))
+    (hnd : pkt.Pairwise (fun a b => a.1 ≠ b.1)) (hn : ItemsNormOK norm d) (hne : pkt ≠ []) :
+    (addPacketBody l pkt d).map (fun _ => ()) = ((absLoop d x).specAddPacket norm pkt).map (fun _ => ()) :=
+  addPacketBody_code norm d l pkt x h hx hk hrb hsc hnd hn hne
+
+/-- cif_container_remove_item (valid name, no transaction open) returns the documented model's code: CIF_NOSUCH_ITEM exactly when
+    no loop of the container has the item, CIF_OK otherwise -/
+theorem C04_code_remove_item (norm : Str → Str) (s : Store) (hd : CH) (n : Name) (code : Str) (fs : List Container) (h : Inv s.db)
+    (hv : n.valid = true) (hac : s.autocommit = true) (hn : ItemsNormOK norm s.db) :
+    (Store.removeItem s hd (some n)).2 = ((Container.mk code fs (absLoops s.db hd.id)).specRemoveItem norm n.key).map (fun _ => ()) :=
+  removeItem_code norm s hd n code fs h hv hac hn
 
 end CifModel
